@@ -11,6 +11,8 @@ Decided:
   C13.count  I/O adaptors forward the inner result and account only the transferred bytes
   C13.panic  engine B over the writer and metadata-writer entry points: no unaudited panic site (no unwrap/expect
              on a failing underlying stream)
+  C13.read   FlacStreamReader::read reports an I/O error met while parsing a frame header instead of skipping the frame
+  (C13.count also requires every Write::flush of the crate's adaptors to forward to the wrapped stream and return its result)
 Not decided: completeness / validity of the bytes delivered (see C02, C11).
 """
 from rules.common import *
